@@ -56,10 +56,22 @@ def _import():
     return spectrum
 
 
+def _remember(obj, arr):
+    """the array the caller handed to the object (the caller keeps it and may go on using it: TouchCallerArray)"""
+    try:
+        obj._verif_handed = arr
+    except Exception:
+        pass
+    return obj
+
+
 def _mk(name):
     def build(at, scale=None):
+        x = DATA[(at['dt'], at['data'])].copy()
+        return _remember(_build(at, scale, x), x)
+
+    def _build(at, scale, x):
         sp = _import()
-        x = DATA[(at['dt'], at['data'])]
         kw = dict(NFFT=at['nfft'], sampling=at['samp'] / float(SAMP_UNIT),
                   scale_by_freq=at['scale'] if scale is None else scale)
         det = None if at['detrend'] in ('none', 'na') else at['detrend']
@@ -188,7 +200,17 @@ def _num(v):
 def apply_op(p, op, arg):
     """apply one public operation; returns (ok, exception)"""
     if op == 'SetData':
-        return call_guard(setattr, p, 'data', DATA[(arg.get('dt', p.datatype), arg['data'])])
+        arr = DATA[(arg.get('dt', p.datatype), arg['data'])].copy()
+        res = call_guard(setattr, p, 'data', arr)
+        _remember(p, arr)
+        return res
+    if op == 'TouchCallerArray':
+        # the caller re-uses the array it handed over (a work buffer): the object's record is its own
+        arr = getattr(p, '_verif_handed', None)
+        if isinstance(arr, np.ndarray) and arr.flags.writeable:
+            arr *= 3.0
+            arr += 1.0
+        return True, None
     if op == 'SetNFFT':
         return call_guard(setattr, p, 'NFFT', nfft_py(arg))
     if op == 'SetSampling':
